@@ -109,7 +109,7 @@ class Thread:
             return False
         p = self.pending
         if p is not None and p[1] == "wait":
-            return getattr(c, p[0]).flag or closing or p[0] == "write_finished"
+            return getattr(c, p[0]).flag or closing
         return True
 
     def step(self, c):
